@@ -156,8 +156,6 @@ def check_case(case, rec):
         exp = pipeline.expected_detections(prefix, case, run.thr)
         c12.judge_observers(run, case, exp)
         c12.judge_files(run, case, exp, R)
-        if run.src.is_open():
-            raise Violation("source left open after stop_all()", case)
         classes = set()
         nblocks = len(R)
         if nblocks == 0 and not run.tokenizer_done_at_stop:
